@@ -39,6 +39,8 @@ pub struct IncWorld {
     /// model: last epoch in which a user's claim succeeded
     pub claimed_in_epoch: BTreeMap<usize, u64>,
     pub close_before_snapshot_epoch: Option<u64>,
+    /// epoch at which the history started (no account can have older unclaimed epochs)
+    pub epoch0: u64,
 }
 
 impl IncWorld {
@@ -170,7 +172,9 @@ pub fn build_inc(r: &mut Rng, variant: u64) -> IncWorld {
     let incentive: Option<Addr> = query(&app, &ifactory, &ifm::QueryMsg::Incentive { lp_asset: lp.info() }).unwrap();
     let incentive = incentive.expect("incentive registered");
     let rewards = vec![AssetRef::Native("ureward".into()), AssetRef::Cw20(rwd), lp.clone(), AssetRef::Native("uwhale".into())];
-    IncWorld { app, core, users, ifactory, incentive, helper, lp, pair, fee_asset, fee_amount, rewards, tokens, ops: vec![], creators: BTreeMap::new(), claimed_in_epoch: BTreeMap::new(), close_before_snapshot_epoch: None }
+    let mut wd = IncWorld { app, core, users, ifactory, incentive, helper, lp, pair, fee_asset, fee_amount, rewards, tokens, ops: vec![], creators: BTreeMap::new(), claimed_in_epoch: BTreeMap::new(), close_before_snapshot_epoch: None, epoch0: 0 };
+    wd.epoch0 = wd.epoch();
+    wd
 }
 
 fn detail(wd: &IncWorld, extra: Value) -> Value {
@@ -482,7 +486,7 @@ pub fn op_helper_deposit(acc: &mut Acc, wd: &mut IncWorld, ui: usize, amount: u1
     }
 }
 
-/// open flow with funding faults. pay: 0 exact, 1 fee only (flow not funded), 2 under-pay the flow by 1, 3 over-pay
+/// open flow with funding faults. pay: 0 exact, 1 fee only (flow not funded), 2 under-pay the flow by 1, 3 over-pay, 4 right amount in the wrong native denom
 pub fn op_open_flow(acc: &mut Acc, wd: &mut IncWorld, ui: usize, asset: &AssetRef, amount: u128, start: Option<u64>, end: Option<u64>, pay: u8) {
     let usr = wd.users[ui].clone();
     let inc = wd.incentive.clone();
@@ -512,7 +516,9 @@ pub fn op_open_flow(acc: &mut Acc, wd: &mut IncWorld, ui: usize, asset: &AssetRe
     }
     match asset {
         AssetRef::Native(d) => {
-            *funds.entry(d.clone()).or_insert(0) += give_flow;
+            // pay == 4: the right amount in the wrong native denom
+            let dn = if pay == 4 { if d == "uaaa" { "ampWHALE".to_string() } else { "uaaa".to_string() } } else { d.clone() };
+            *funds.entry(dn).or_insert(0) += give_flow;
         }
         AssetRef::Cw20(t) => {
             let allow = if same { give_flow + fee } else { give_flow };
@@ -593,6 +599,8 @@ pub fn op_expand_flow(acc: &mut Acc, wd: &mut IncWorld, ui: usize, flow: &im::Fl
         _ => amount,
     };
     let funds = match &asset {
+        // pay == 4: the right amount in the wrong native denom
+        AssetRef::Native(d) if pay == 4 => vec![coin(give, if d == "uaaa" { "ampWHALE" } else { "uaaa" })],
         AssetRef::Native(_) => asset.funds(give),
         AssetRef::Cw20(t) => {
             set_allowance(&mut wd.app, t, &usr, &inc, give);
@@ -707,8 +715,14 @@ pub fn op_claim(acc: &mut Acc, wd: &mut IncWorld, ui: usize) -> bool {
             if total_paid > 0 {
                 acc.count("claim_rewards.paid");
             }
-            // W5: quoted == paid per asset
-            if let Ok(q) = &quoted {
+            // W5: quoted == paid per asset — the statement covers "up to 100 unclaimed epochs"
+            let unclaimed_span = e.saturating_sub(wd.claimed_in_epoch.get(&ui).copied().unwrap_or(wd.epoch0.saturating_sub(1)));
+            if unclaimed_span > 100 {
+                acc.count("W5.not-judged.more-than-100-unclaimed-epochs");
+            } else if let Ok(q) = &quoted {
+                if unclaimed_span >= 50 {
+                    acc.count("check.W5.with-50-to-100-unclaimed-epochs");
+                }
                 acc.count("check.W5");
                 let mut qm: BTreeMap<String, i128> = BTreeMap::new();
                 for a in q {
@@ -855,7 +869,7 @@ pub fn run_history(acc: &mut Acc, r: &mut Rng, steps: u64, variant: u64) {
                 3 => Some(e + *r.pick(&[179u64, 180, 181, 182, 250, 400])),
                 _ => Some(e + r.range(2, 30)),
             };
-            let pay = if r.chance(1, 3) { r.range(1, 3) as u8 } else { 0 };
+            let pay = if r.chance(1, 3) { r.range(1, 4) as u8 } else { 0 };
             op_open_flow(acc, &mut wd, ui, &asset, amount, start, end, pay);
             class.push(6);
         } else if op < 70 {
@@ -869,7 +883,7 @@ pub fn run_history(acc: &mut Acc, r: &mut Rng, steps: u64, variant: u64) {
                     2 => Some(f.start_epoch + *r.pick(&[179u64, 180, 181, 200, 365])),
                     _ => Some(crate::mon::inc::flow_end(&f) + r.range(0, 20)),
                 };
-                let pay = if r.chance(1, 5) { r.range(2, 3) as u8 } else { 0 };
+                let pay = if r.chance(1, 5) { r.range(2, 4) as u8 } else { 0 };
                 op_expand_flow(acc, &mut wd, ui, &f, r.range128(1, 5_000_000_000), end, pay);
             }
             class.push(7);
@@ -907,8 +921,14 @@ pub fn run_history(acc: &mut Acc, r: &mut Rng, steps: u64, variant: u64) {
             check_shares(acc, &wd, "after snapshot");
             class.push(10);
         } else {
-            // next epoch; the permissionless snapshot is taken at a random point of the epoch (see op above) or right away
-            advance(&mut wd.app, 10, DAY_NS);
+            // next epoch; the permissionless snapshot is taken at a random point of the epoch (see op above) or right away.
+            // Now and then many epochs pass at once, so that claims cover dozens of unclaimed epochs (up to the 100-epoch cap)
+            let k = if r.chance(1, 6) { *r.pick(&[20u64, 49, 51, 70, 99, 100, 101]) } else { 1 };
+            if k > 1 {
+                acc.count("epoch.fast-forward");
+                wd.log(format!("fast-forward {k} epochs"));
+            }
+            advance(&mut wd.app, 10, k * DAY_NS);
             let owner = wd.core.owner.clone();
             catch_up_epochs(&mut wd.app, &wd.core, &owner);
             wd.log(format!("epoch -> {}", wd.epoch()));
